@@ -78,7 +78,7 @@ func checkCopyright(c *Ctx) error {
 	c.Cov["traces_validated_against_impl"] = len(cases)
 	c.Cov["cli_executions"] = cli
 	c.Cov["exhaustive"] = keepMod == 1
-	c.Cov["rule"] = fmt.Sprintf("every history of %d invocations over 7 version spellings (plain, lower/upper-case pre-release, v prefix, two components, build metadata, git-describe) x 2 years on 4 files with each marker kind 0..2 times; after EVERY invocation all .conf/.example files must equal the spec byte for byte, decoy files stay untouched, repeating the last invocation changes nothing; non-trivial = at least two different versions in the history on a file with markers", runs)
+	c.Cov["rule"] = fmt.Sprintf("every history of %d invocations over 7 version spellings (plain, lower/upper-case pre-release, v prefix, two components, build metadata, git-describe) x 2 years on 5 files with each marker kind 0..2 times; after EVERY invocation all .conf/.example files must equal the spec byte for byte, decoy files stay untouched, repeating the last invocation changes nothing; non-trivial = at least two different versions in the history on a file with markers", runs)
 	c.Summary = fmt.Sprintf("theorem_states=%d histories=%d cli=%d", th.Distinct, len(cases), cli)
 	return nil
 }
